@@ -84,6 +84,10 @@ def apiMakeEmpty (covord spord : Nat) (kind : Kind) (sentinel : Option Val) (cov
     Except Err MapObj := do
   if spord < covord then throw .value
   let c := cfgOf covord spord
+  -- `cov_pixels`: repeats dropped keeping the order (after the `fix:` commit); an index past
+  -- the coverage map is numpy's IndexError
+  let covPix := covPix.eraseDups
+  if covPix.any (· ≥ c.ncov) then throw .index
   let sent ← match kind with
     | .wide _ =>
         match sentinel with
